@@ -589,6 +589,19 @@ func (t *fnTrans) call(in ssa.Instruction, cc *ssa.CallCommon, res ssa.Value) {
 		// event log: which functions this activation called (spec: called("Name"))
 		t.event("called", nameTag("callee:"+calleeName(cc)), "")
 	}
+	// handing out the address of a by-value struct field (d.d.Dial(...): the receiver is &d.d) lets the
+	// callee read it: an access to the field as far as its guard is concerned
+	if _, isBuiltin := cc.Value.(*ssa.Builtin); !isBuiltin {
+		for _, a := range cc.Args {
+			if fa, ok := a.(*ssa.FieldAddr); ok {
+				if l := t.locs[fa]; l != nil && l.kind == locCell && l.owner != "" {
+					if _, isSt := t.isStruct(l.typ); isSt && !isSyncType(l.typ) {
+						t.guardAccess(l, false, in.Pos())
+					}
+				}
+			}
+		}
+	}
 	if b, ok := cc.Value.(*ssa.Builtin); ok && !cc.IsInvoke() {
 		t.builtin(in, b, cc, res)
 		return
@@ -1755,4 +1768,15 @@ func (t *fnTrans) mNewError(in ssa.Instruction, cc *ssa.CallCommon, res ssa.Valu
 		t.libErrorFact(r[0])
 	}
 	return true
+}
+
+// isSyncType: sync.Mutex / RWMutex / Once / Cond / WaitGroup / Pool and atomic values synchronise themselves
+func isSyncType(ty types.Type) bool {
+	if n, ok := types.Unalias(ty).(*types.Named); ok && n.Obj().Pkg() != nil {
+		switch n.Obj().Pkg().Path() {
+		case "sync", "sync/atomic":
+			return true
+		}
+	}
+	return false
 }
